@@ -81,6 +81,7 @@ package nsqd
 //@   props C06 C05
 //@   nochan
 //@   requires[locked-map] gTopicsOK(n)
+//@   requires n != nil
 //@   ensures[document-is-GetMetadata-false] gMetaCalls == old(gMetaCalls) + 1 && gMetaOf == n && !gMetaEph
 //@   ensures[marshal-of-that-document] dyntype(gMarshalArg) == typetag("*Metadata") && unbox(gMarshalArg, "*Metadata") == gMetaDoc
 //@   ensures[marshal-error-returned] gMarshalErr != nil ==> result == gMarshalErr && gfsOpens == old(gfsOpens) && gfsRenames == old(gfsRenames)
@@ -97,10 +98,10 @@ package nsqd
 //@   ensures[write-error-returned] gMarshalErr == nil && gfsRenames == old(gfsRenames) ==> result != nil
 //@   ensures[document-built-now] gMetaSawTopicPauses == gTopicPauseCalls && gMetaSawChanPauses == gChanPauseCalls
 //@   ensures[topics-untouched] n.topicMap == old(n.topicMap)
+//@   modifies Topic.channelMap, mapstore(map[string]*Channel), gMetaCalls, gMetaDoc, gMetaEph, gMetaOf, gMetaSawTopicPauses, gMetaSawChanPauses, gMarshals, gMarshalArg, gMarshalOut, gMarshalErr, gfsOpens, gfsOpenName, gfsOpenFlag, gfsOpenPerm, gfsOpenFile, gfsOpenErr, gfsOpenClosed, gfsWrites, gfsWriteFile, gfsWriteData, gfsWriteErr, gfsWriteAfterClose, gfsSyncs, gfsSyncFile, gfsSyncErr, gfsSyncSawWrites, gfsSyncAfterClose, gfsCloses, gfsCloseFile, gfsRenames, gfsRenameSrc, gfsRenameDst, gfsRenameErr, jPersistCalls
 //@   onreturn gQuiesced := false
-//@   modifies Topic.channelMap, mapstore(map[string]*Channel), gMetaCalls, gMetaDoc, gMetaEph, gMetaOf, gMetaSawTopicPauses, gMetaSawChanPauses, gMarshals, gMarshalArg, gMarshalOut, gMarshalErr,
-//@        gfsOpens, gfsOpenName, gfsOpenFlag, gfsOpenPerm, gfsOpenFile, gfsOpenErr, gfsOpenClosed, gfsWrites, gfsWriteFile, gfsWriteData, gfsWriteErr, gfsWriteAfterClose, gfsSyncs, gfsSyncFile, gfsSyncErr, gfsSyncSawWrites, gfsSyncAfterClose, gfsCloses, gfsCloseFile,
-//@        gfsRenames, gfsRenameSrc, gfsRenameDst, gfsRenameErr
+//@   onreturn jPersistCalls := jPersistCalls + 1
+//@   onreturn jPersistErr := result
 
 // ---- LoadMetadata -------------------------------------------------------------------------------
 // The most recent Topic.GetChannel call (set by onreturn lines added to its contract in zz_contracts_lookup_verif.go).
@@ -133,28 +134,35 @@ package nsqd
 //@ ghost gChanPauseVal bool
 
 //@ func (t *Topic) doPause(pause bool) error
-//@   props C06 C05 C03
+//@   props C06 C05 C03 C10
 //@   requires t != nil
 //@   ensures[never-fails] result == nil
 //@   ensures[flag] t.paused == (pause ? 1 : 0)
-//@   modifies t.paused, chanstore(int), gTopicPauseCalls, gTopicPauseTopic, gTopicPauseVal
+//@   modifies t.paused, chanstore(int), gTopicPauseCalls, gTopicPauseTopic, gTopicPauseVal, jTopicPauseCalls
 //@   onreturn gTopicPauseCalls := gTopicPauseCalls + 1
 //@   onreturn gTopicPauseTopic := t
 //@   onreturn gTopicPauseVal := pause
+//@   onreturn jTopicPauseCalls := jTopicPauseCalls + 1
+//@   onreturn jTopicPaused := t
+//@   onreturn jTopicPauseVal := pause
 // Pause / UnPause promise nothing about their error result (doPause never fails today, but the HTTP handlers
 // have a 500 path for it; promising nil here would make that path dead code in the model).
 //@ func (t *Topic) Pause() error
-//@   props C06 C05 C03
+//@   props C06 C05 C03 C10
 //@   requires t != nil
 //@   ensures[paused] t.paused == 1
 //@   ensures[recorded] gTopicPauseCalls == old(gTopicPauseCalls) + 1 && gTopicPauseTopic == t && gTopicPauseVal
-//@   modifies t.paused, chanstore(int), gTopicPauseCalls, gTopicPauseTopic, gTopicPauseVal
+//@   ensures[recorded-j] jTopicPauseCalls == old(jTopicPauseCalls) + 1 && jTopicPaused == t && jTopicPauseVal
+//@   modifies t.paused, chanstore(int), gTopicPauseCalls, gTopicPauseTopic, gTopicPauseVal, jTopicPauseCalls
+//@   onreturn jTopicPauseErr := result
 //@ func (t *Topic) UnPause() error
-//@   props C06 C05 C03
+//@   props C06 C05 C03 C10
 //@   requires t != nil
 //@   ensures[unpaused] t.paused == 0
 //@   ensures[recorded] gTopicPauseCalls == old(gTopicPauseCalls) + 1 && gTopicPauseTopic == t && !gTopicPauseVal
-//@   modifies t.paused, chanstore(int), gTopicPauseCalls, gTopicPauseTopic, gTopicPauseVal
+//@   ensures[recorded-j] jTopicPauseCalls == old(jTopicPauseCalls) + 1 && jTopicPaused == t && !jTopicPauseVal
+//@   modifies t.paused, chanstore(int), gTopicPauseCalls, gTopicPauseTopic, gTopicPauseVal, jTopicPauseCalls
+//@   onreturn jTopicPauseErr := result
 
 // Channel.doPause / Pause / UnPause are under contract in zz_contracts_kchannel_verif.go (area K); the lines that record
 // gChanPauseCalls / gChanPauseChan / gChanPauseVal were added there (see changes.diff).
@@ -207,20 +215,31 @@ package nsqd
 
 // ---- HTTP pause / unpause (C06: every acknowledged pause/unpause is reflected after a restart) ----
 //@ func (n *NSQD) GetExistingTopic(topicName string) (*Topic, error)
-//@   props C06
+//@   props C06 C10
 //@   nochan
 //@   requires n != nil
 //@   ensures[found] result1 == nil ==> result0 != nil && result0.nsqd != nil && atlock(has(n.topicMap, topicName)) && result0 == atlock(n.topicMap[topicName])
 //@   ensures[missing] result1 != nil ==> result0 == nil && !atlock(has(n.topicMap, topicName))
-//@   modifies n.topicMap, mapstore(map[string]*Topic)
+//@   ensures[found-j] result1 == nil ==> result0 != nil && atlock(has(n.topicMap, topicName)) && result0 == atlock(n.topicMap[topicName]) && result0.nsqd != nil && result0.idFactory != nil && result0.backend != nil
+//@   modifies n.topicMap, mapstore(map[string]*Topic), jGetExTopicCalls
+//@   onreturn jGetExTopicCalls := jGetExTopicCalls + 1
+//@   onreturn jGetExTopicName := topicName
+//@   onreturn jGetExTopic := result0
+//@   onreturn jGetExTopicErr := result1
 
 //@ func (t *Topic) GetExistingChannel(channelName string) (*Channel, error)
-//@   props C06
+//@   props C06 C10
 //@   nochan
 //@   requires t != nil
 //@   ensures[found] result1 == nil ==> result0 != nil && atlock(has(t.channelMap, channelName)) && result0 == atlock(t.channelMap[channelName])
 //@   ensures[missing] result1 != nil ==> result0 == nil && !atlock(has(t.channelMap, channelName))
-//@   modifies t.channelMap, mapstore(map[string]*Channel)
+//@   ensures[usable] result1 == nil ==> lChanUsable(result0)
+//@   modifies t.channelMap, mapstore(map[string]*Channel), jGetExChanCalls
+//@   onreturn jGetExChanCalls := jGetExChanCalls + 1
+//@   onreturn jGetExChanTopic := t
+//@   onreturn jGetExChanName := channelName
+//@   onreturn jGetExChan := result0
+//@   onreturn jGetExChanErr := result1
 
 // ghosts that always change together (each is assigned by every call that assigns one of them)
 //@ ghostgroup gfsRenames, gfsRenameSrc, gfsRenameDst, gfsRenameErr
@@ -234,38 +253,66 @@ package nsqd
 //                             was acknowledged over HTTP");
 //  [refused-changes-nothing]  400 / 404 change no flag and write nothing.
 //@ func (s *httpServer) doPauseTopic(w http.ResponseWriter, req *http.Request, ps httprouter.Params) (interface{}, error)
-//@   props C06
+//@   props C06 C10
+//@   requires s != nil && s.nsqd != nil && http_api.mServerReq(req)
 //@   requires s != nil && s.nsqd != nil && http_api.mServerReq(req)
 //@   ensures[status] result1 != nil ==> httpErr(result1, 400) || httpErr(result1, 404) || httpErr(result1, 500)
 //@   ensures[ack-means-flag-set] result1 == nil ==> gTopicPauseCalls == old(gTopicPauseCalls) + 1 && gTopicPauseTopic != nil && gTopicPauseTopic.paused == (gTopicPauseVal ? 1 : 0)
 //@   ensures[ack-means-document-built-after-the-change] result1 == nil ==> gMetaCalls == old(gMetaCalls) + 1 && gMetaOf == s.nsqd && !gMetaEph && gMetaSawTopicPauses == gTopicPauseCalls
 //@   ensures[ack-means-persisted] result1 == nil ==> gfsRenames == old(gfsRenames) + 1 && gfsRenameErr == nil && gfsRenameDst == gMetaFileOf(curOpts(s.nsqd).DataPath)
 //@   ensures[refused-changes-nothing] result1 != nil && !httpErr(result1, 500) ==> gTopicPauseCalls == old(gTopicPauseCalls) && gfsOpens == old(gfsOpens) && gfsRenames == old(gfsRenames)
-//@   modifies mRP, NSQD.topicMap, mapstore(map[string]*Topic), Topic.channelMap, mapstore(map[string]*Channel), Topic.paused, chanstore(int),
-//@        gTopicPauseCalls, gMetaCalls, gMetaDoc, gMetaEph, gMetaOf, gMetaSawTopicPauses, gMetaSawChanPauses, gMarshals, gMarshalArg, gMarshalOut, gMarshalErr,
-//@        gfsOpens, gfsOpenName, gfsOpenFlag, gfsOpenPerm, gfsOpenFile, gfsOpenErr, gfsOpenClosed, gfsWrites, gfsWriteFile, gfsWriteData, gfsWriteErr, gfsWriteAfterClose, gfsSyncs, gfsSyncFile, gfsSyncErr, gfsSyncSawWrites, gfsSyncAfterClose, gfsCloses, gfsCloseFile,
-//@        gfsRenames
+//@   ensures[invalid-request] jReqErr != nil ==> jHttpErrT(result1, 400, "INVALID_REQUEST")
+//@   ensures[missing-topic] jReqErr == nil && !has(jV(), "topic") ==> jHttpErrT(result1, 400, "MISSING_ARG_TOPIC")
+//@   ensures[no-lookup-on-bad-args] jReqErr != nil || !has(jV(), "topic") ==> jGetExTopicCalls == old(jGetExTopicCalls)
+//@   ensures[lookup-by-name] jReqErr == nil && has(jV(), "topic") ==> jGetExTopicCalls == old(jGetExTopicCalls) + 1 && jGetExTopicName == jV()["topic"][0]
+//@   ensures[unknown-topic] jGetExTopicCalls != old(jGetExTopicCalls) && jGetExTopicErr != nil ==> jHttpErrT(result1, 404, "TOPIC_NOT_FOUND")
+//@   ensures[rejected-before-pause-changes-nothing] result1 != nil && !httpErr(result1, 500) ==> jTopicPauseCalls == old(jTopicPauseCalls) && jPersistCalls == old(jPersistCalls)
+//@   ensures[500-only-failed-pause-or-persist] httpErr(result1, 500) ==> jTopicPauseCalls == old(jTopicPauseCalls) + 1 && ((jTopicPauseErr != nil && jPersistCalls == old(jPersistCalls)) || (jTopicPauseErr == nil && jPersistCalls == old(jPersistCalls) + 1 && jPersistErr != nil))
+//@   ensures[found-means-ok] jGetExTopicCalls != old(jGetExTopicCalls) && jGetExTopicErr == nil && jTopicPauseErr == nil && jPersistErr == nil ==> result1 == nil
+//@   ensures[effect] result1 == nil ==> result0 == nil && jTopicPauseCalls == old(jTopicPauseCalls) + 1 && jTopicPaused == jGetExTopic && jGetExTopic != nil &&
+//@        jTopicPauseVal == !jContains(req.URL.Path, "unpause") && jGetExTopic.paused == (jContains(req.URL.Path, "unpause") ? 0 : 1) && jPersistCalls == old(jPersistCalls) + 1
+//@   modifies mRP, NSQD.topicMap, mapstore(map[string]*Topic), Topic.channelMap, mapstore(map[string]*Channel), Topic.paused, chanstore(int), gTopicPauseCalls, gMetaCalls, gMetaDoc, gMetaEph, gMetaOf, gMetaSawTopicPauses, gMetaSawChanPauses, gMarshals, gMarshalArg, gMarshalOut, gMarshalErr, gfsOpens, gfsOpenName, gfsOpenFlag, gfsOpenPerm, gfsOpenFile, gfsOpenErr, gfsOpenClosed, gfsWrites, gfsWriteFile, gfsWriteData, gfsWriteErr, gfsWriteAfterClose, gfsSyncs, gfsSyncFile, gfsSyncErr, gfsSyncSawWrites, gfsSyncAfterClose, gfsCloses, gfsCloseFile, gfsRenames, jReqParams, jGetExTopicCalls, jTopicPauseCalls, jPersistCalls
 
 //@ func (s *httpServer) getExistingTopicFromQuery(req *http.Request) (*http_api.ReqParams, *Topic, string, error)
-//@   props C06
+//@   props C06 C10
 //@   nochan
+//@   requires s != nil && s.nsqd != nil && http_api.mServerReq(req)
 //@   requires s != nil && s.nsqd != nil && http_api.mServerReq(req)
 //@   ensures[status] result3 != nil ==> (httpErr(result3, 400) || httpErr(result3, 404)) && result1 == nil
 //@   ensures[found] result3 == nil ==> result1 != nil && result1.nsqd != nil && validName(result2)
-//@   modifies mRP, NSQD.topicMap, mapstore(map[string]*Topic)
+//@   ensures[typed-error] result3 != nil ==> (httpErr(result3, 400) || httpErr(result3, 404)) && result0 == nil && result1 == nil && result2 == ""
+//@   ensures[invalid-request] jReqErr != nil ==> jHttpErrT(result3, 400, "INVALID_REQUEST")
+//@   ensures[missing-topic] jReqErr == nil && !has(jV(), "topic") ==> jHttpErrT(result3, 400, "MISSING_ARG_TOPIC")
+//@   ensures[invalid-topic] jReqErr == nil && has(jV(), "topic") && !validName(jV()["topic"][0]) ==> jHttpErrT(result3, 400, "INVALID_ARG_TOPIC")
+//@   ensures[missing-channel] jReqErr == nil && jTopicArg(jV()) && !has(jV(), "channel") ==> jHttpErrT(result3, 400, "MISSING_ARG_CHANNEL")
+//@   ensures[invalid-channel] jReqErr == nil && jTopicArg(jV()) && has(jV(), "channel") && !validName(jV()["channel"][0]) ==> jHttpErrT(result3, 400, "INVALID_ARG_CHANNEL")
+//@   ensures[no-lookup-on-bad-args] jReqErr != nil || !jTopicArg(jV()) || !jChannelArg(jV()) ==> jGetExTopicCalls == old(jGetExTopicCalls)
+//@   ensures[lookup-by-name] jReqErr == nil && jTopicArg(jV()) && jChannelArg(jV()) ==> jGetExTopicCalls == old(jGetExTopicCalls) + 1 && jGetExTopicName == jV()["topic"][0]
+//@   ensures[unknown-topic] jGetExTopicCalls != old(jGetExTopicCalls) && jGetExTopicErr != nil ==> jHttpErrT(result3, 404, "TOPIC_NOT_FOUND")
+//@   ensures[found-j] jGetExTopicCalls != old(jGetExTopicCalls) && jGetExTopicErr == nil ==> result3 == nil
+//@   ensures[ok] result3 == nil ==> jReqErr == nil && jTopicArg(jV()) && jChannelArg(jV()) && jGetExTopicCalls == old(jGetExTopicCalls) + 1 && jGetExTopicErr == nil &&
+//@        result0 == jReqParams && result1 == jGetExTopic && result1 != nil && result1.nsqd != nil && result1.backend != nil && result2 == jV()["channel"][0]
+//@   modifies mRP, NSQD.topicMap, mapstore(map[string]*Topic), jReqParams, jGetExTopicCalls
 
 //@ func (s *httpServer) doPauseChannel(w http.ResponseWriter, req *http.Request, ps httprouter.Params) (interface{}, error)
-//@   props C06
+//@   props C06 C10
+//@   requires s != nil && s.nsqd != nil && http_api.mServerReq(req)
 //@   requires s != nil && s.nsqd != nil && http_api.mServerReq(req)
 //@   ensures[status] result1 != nil ==> httpErr(result1, 400) || httpErr(result1, 404) || httpErr(result1, 500)
 //@   ensures[ack-means-flag-set] result1 == nil ==> gChanPauseCalls == old(gChanPauseCalls) + 1 && gChanPauseChan != nil && gChanPauseChan.paused == (gChanPauseVal ? 1 : 0)
 //@   ensures[ack-means-document-built-after-the-change] result1 == nil ==> gMetaCalls == old(gMetaCalls) + 1 && gMetaOf == s.nsqd && !gMetaEph && gMetaSawChanPauses == gChanPauseCalls
 //@   ensures[ack-means-persisted] result1 == nil ==> gfsRenames == old(gfsRenames) + 1 && gfsRenameErr == nil && gfsRenameDst == gMetaFileOf(curOpts(s.nsqd).DataPath)
 //@   ensures[refused-changes-nothing] result1 != nil && !httpErr(result1, 500) ==> gChanPauseCalls == old(gChanPauseCalls) && gfsOpens == old(gfsOpens) && gfsRenames == old(gfsRenames)
-//@   modifies mRP, NSQD.topicMap, mapstore(map[string]*Topic), Topic.channelMap, mapstore(map[string]*Channel), Channel.paused, Channel.clients, mapstore(map[int64]Consumer), kConsPaused, kConsUnpaused, kLastCons,
-//@        gChanPauseCalls, gMetaCalls, gMetaDoc, gMetaEph, gMetaOf, gMetaSawTopicPauses, gMetaSawChanPauses, gMarshals, gMarshalArg, gMarshalOut, gMarshalErr,
-//@        gfsOpens, gfsOpenName, gfsOpenFlag, gfsOpenPerm, gfsOpenFile, gfsOpenErr, gfsOpenClosed, gfsWrites, gfsWriteFile, gfsWriteData, gfsWriteErr, gfsWriteAfterClose, gfsSyncs, gfsSyncFile, gfsSyncErr, gfsSyncSawWrites, gfsSyncAfterClose, gfsCloses, gfsCloseFile,
-//@        gfsRenames
+//@   ensures[bad-args] !(jReqErr == nil && jTopicArg(jV()) && jChannelArg(jV())) ==> httpErr(result1, 400) && jGetExChanCalls == old(jGetExChanCalls)
+//@   ensures[unknown-topic] jGetExTopicCalls != old(jGetExTopicCalls) && jGetExTopicErr != nil ==> jHttpErrT(result1, 404, "TOPIC_NOT_FOUND") && jGetExChanCalls == old(jGetExChanCalls)
+//@   ensures[channel-by-name] jGetExChanCalls != old(jGetExChanCalls) ==> jGetExChanCalls == old(jGetExChanCalls) + 1 && jGetExChanTopic == jGetExTopic && jGetExTopicName == jV()["topic"][0] && jGetExChanName == jV()["channel"][0]
+//@   ensures[unknown-channel] jGetExChanCalls != old(jGetExChanCalls) && jGetExChanErr != nil ==> jHttpErrT(result1, 404, "CHANNEL_NOT_FOUND")
+//@   ensures[rejected-before-pause-changes-nothing] result1 != nil && !httpErr(result1, 500) ==> jChanPauseCalls == old(jChanPauseCalls) && jPersistCalls == old(jPersistCalls)
+//@   ensures[500-only-failed-pause-or-persist] httpErr(result1, 500) ==> jChanPauseCalls == old(jChanPauseCalls) + 1 && ((jChanPauseErr != nil && jPersistCalls == old(jPersistCalls)) || (jChanPauseErr == nil && jPersistCalls == old(jPersistCalls) + 1 && jPersistErr != nil))
+//@   ensures[found-means-ok] jGetExChanCalls != old(jGetExChanCalls) && jGetExChanErr == nil && jChanPauseErr == nil && jPersistErr == nil ==> result1 == nil
+//@   ensures[effect] result1 == nil ==> result0 == nil && jChanPauseCalls == old(jChanPauseCalls) + 1 && jChanPaused == jGetExChan && jGetExChan != nil &&
+//@        jChanPauseVal == !jContains(req.URL.Path, "unpause") && jPersistCalls == old(jPersistCalls) + 1
+//@   modifies mRP, NSQD.topicMap, mapstore(map[string]*Topic), Topic.channelMap, mapstore(map[string]*Channel), Channel.paused, Channel.clients, mapstore(map[int64]Consumer), kConsPaused, kConsUnpaused, kLastCons, gChanPauseCalls, gMetaCalls, gMetaDoc, gMetaEph, gMetaOf, gMetaSawTopicPauses, gMetaSawChanPauses, gMarshals, gMarshalArg, gMarshalOut, gMarshalErr, gfsOpens, gfsOpenName, gfsOpenFlag, gfsOpenPerm, gfsOpenFile, gfsOpenErr, gfsOpenClosed, gfsWrites, gfsWriteFile, gfsWriteData, gfsWriteErr, gfsWriteAfterClose, gfsSyncs, gfsSyncFile, gfsSyncErr, gfsSyncSawWrites, gfsSyncAfterClose, gfsCloses, gfsCloseFile, gfsRenames, jReqParams, jGetExTopicCalls, jGetExChanCalls, jChanPauseCalls, jPersistCalls
 
 // ---- Notify: the background persist after a topic/channel creation or deletion ----------------------
 // WaitGroupWrapper.Wrap(cb) only starts `go cb()` (goroutines are skipped by the engine, reported).
